@@ -19,8 +19,9 @@ import traceback
 VERIF = os.path.dirname(os.path.dirname(os.path.abspath(__file__)))
 if VERIF not in sys.path:
     sys.path.insert(0, VERIF)
-if "/repo/src" not in sys.path:
-    sys.path.insert(0, "/repo/src")
+AIOFTP_SRC = os.environ.get("AIOFTP_SRC", "/repo/src")  # scratch worktrees are tested by pointing this elsewhere
+if AIOFTP_SRC not in sys.path:
+    sys.path.insert(0, AIOFTP_SRC)
 
 NPROC = int(os.environ.get("VERIF_NPROC", "16"))
 CASE_WALL_LIMIT = int(os.environ.get("VERIF_CASE_WALL", "120"))
